@@ -165,6 +165,8 @@ def execute(plan, want_refs=True, timeout=120.0, coverage=False):
             stats["faults_fired"][f["kind"]] = stats["faults_fired"].get(f["kind"], 0) + 1
         if r.get("seam_raise"):
             stats["faults_fired"]["seam-raise"] = stats["faults_fired"].get("seam-raise", 0) + 1
+        if r.get("cb_raise"):
+            stats["faults_fired"]["cb-raise"] = stats["faults_fired"].get("cb-raise", 0) + 1
 
     def viol(oracle, rec, kind, detail):
         step = idx[rec["id"]]
